@@ -184,6 +184,15 @@ def mk_ext(atts=True):
     return f, data
 
 
+def mk_grid(version):
+    """variables with several dimensions no shorter than the process counts ncmpidiff is run on: every element is edited"""
+    T = cdf
+    dims = [T.Dim('t', 0), T.Dim('a', 4), T.Dim('b', 5)]
+    vars_ = [T.Var('g', D.NC_INT, [1, 2]), T.Var('r', D.NC_SHORT, [0, 1]), T.Var('h', D.NC_DOUBLE, [2, 1])]
+    f = T.File(version, dims, [T.Att('title', D.NC_CHAR, b'grid')], vars_, 4)
+    return f, c04.gen_data(f)
+
+
 def corpus(thorough):
     out = []
     f, data = mk_ext(); cdf.layout(f)
@@ -351,9 +360,12 @@ def main(tier=None, only=None):
         if expect_ok and rc != 0: V(('tool', 'ncvalidator', 'rejects a valid file'), label, '%s: ncvalidator exits %d on a file the library wrote / the encoder made: %s' % (label, rc, out[:300]))
         if not expect_ok and rc == 0: V(('tool', 'ncvalidator', 'accepts: ' + label.split(':')[-1]), label, '%s: ncvalidator accepts a header that violates the specification' % label)
 
-    def t_diff(label, raw1, raw2, expect_same):
+    def t_diff(label, raw1, raw2, expect_same, nps=(1,)):
         p1, p2 = wfile(raw1), wfile(raw2)
-        for tool, cmd in (('cdfdiff', [U['cdfdiff'], '-q', p1, p2]), ('ncmpidiff', [U['ncmpidiff'], '-q', p1, p2])):
+        runs = [('cdfdiff', [U['cdfdiff'], '-q', p1, p2])]
+        for n in nps:
+            runs.append(('ncmpidiff' if n == 1 else 'ncmpidiff np=%d' % n, ([U['ncmpidiff']] if n == 1 else ['mpirun', '-np', str(n), U['ncmpidiff']]) + ['-q', p1, p2]))
+        for tool, cmd in runs:
             rc, out = run(cmd)
             same = (rc == 0 and 'DIFF' not in out.upper().replace('NCMPIDIFF', '').replace('CDFDIFF', ''))
             ck.outcomes.add((tool, same, expect_same))
@@ -413,6 +425,13 @@ def main(tier=None, only=None):
             jobs.append((t_diff, ('lib:' + name + ':' + lab, raw, r2, True)))
         for lab, r2 in itertools.islice(logical_edits(f, data, False), 0, None, 3):
             jobs.append((t_diff, ('lib:' + name + ':' + lab, raw, r2, False)))
+    for ver in ((1, 2, 5) if thorough else (2,)):
+        f, data = mk_grid(ver); cdf.layout(f); raw = cdf.encode(f, data); name = 'enc-v%d-grid' % ver
+        nps = (1, 2, 3, 4) if thorough else (2, 4)
+        for lab, r2 in list(relayouts(f, data))[:2]:
+            jobs.append((t_diff, (name + ':' + lab, raw, r2, True, nps)))
+        for lab, r2 in logical_edits(f, data, True):
+            if lab.startswith('value-'): jobs.append((t_diff, (name + ':' + lab, raw, r2, False, nps)))
     for name, f, data, raw in corpus(thorough):
         jobs.append((t_validate, (name, raw, True)))
         jobs.append((t_dump, (name, f, data, raw)))
